@@ -96,6 +96,11 @@ add("C10", "exploration",
     "constrains kept nodes only; signature map of the failed evaluation read through the counted all_store_paths wrapper",
     "runtime monitoring: exception-identity + store-effect monitor with follow-up evaluations", "E1-pipeline")
 
+add("C09", "exploration",
+    "Load monitor: 5 placements of dds.load x producer kind x timing (earlier in the evaluation, later in it, earlier evaluation, never) x producer edits and unrelated edits x stores; observed: the entry value (which embeds what every load returned) vs the dds-free reference with latest-keep-in-program-order semantics, the execution log of the kept reader (re-evaluated iff the path serves a new result; cone fingerprint incl. what externally produced paths currently serve), and the exception class of read-before-produce evaluations (must be a DDS error). Held on the combinations observed.",
+    "literal paths; one load site per path and evaluation",
+    "runtime monitoring: differential value monitor with load semantics + reader execution-log monitor", "E1-pipeline")
+
 NOT_YET = {}
 
 
